@@ -257,6 +257,8 @@ def run_task(task, acc):
                     if how == "list" and not any(s is None for s in x) and len(x) > 2:
                         continue  # the None-free lists only differ from the ndarray run by the carrier (C15)
                     yield dict(fn=name, cfg=cfg, x=list(x), how=how, secs=alpha.regular_secs(len(x)))
+                long_x = alpha.debruijn(tuple(al), 4) * 3
+                yield dict(fn=name, cfg=cfg, x=list(long_x), how=how, secs=alpha.regular_secs(len(long_x)))
         run_cases(acc, gen(), check_case)
     elif kind == "clim":
         _, i, n = task
